@@ -31,6 +31,7 @@ package command
 // the deferred cancel runs after Wait.
 //@ func startScanEngine
 //@   sig ctx, engine, conf
+//@   locals cancel: context.CancelFunc ;; logger: github.com/v-byte-cpu/sx/command/log.Logger ;; wg: sync.WaitGroup ;; done: <-chan interface{} ;; errc: <-chan error
 //@   props C16 C08 C12 C13 C14 C01 C03 C07 C15 C09 C10 C20 C11 C19
 //@   observe context.WithCancel, Start, (*sync.WaitGroup).Add, (*sync.WaitGroup).Wait, cancel
 //@   entry row scan: [call context.WithCancel(ctx) as (c2, cf) ; call Add(_, 1) ; go startScanEngine$1{logger: bind_lg, ctx: bind_c1, engine: bind_en} ;
@@ -46,6 +47,7 @@ package command
 // ranges are consumed or an engine fails.
 //@ func startPortScanEngine
 //@   sig ctx, conf
+//@   locals chunkSize: int ;; i: int ;; end: int ;; newConf: packetScanConfig ;; err: error
 //@   props C01 C03 C15 C16 C07 C08 C13 C14 C09 C10 C12 C20 C11 C19
 //@   observe startPacketScanEngine
 //@   entry row pairs:  [call startPacketScanEngine(ctx, conf) as (e)] when len(pre(conf.scanRange.Ports)) == 0 && ret == e -> exit
@@ -70,6 +72,7 @@ package command
 // configured scan method; startScanEngine runs on this configuration's engine config; the source is closed.
 //@ func startPacketScanEngine
 //@   sig ctx, conf
+//@   locals r: *github.com/v-byte-cpu/sx/pkg/scan.Range ;; ps: *github.com/v-byte-cpu/sx/pkg/packet/afpacket.Source ;; err: error ;; rw: github.com/v-byte-cpu/sx/pkg/packet.ReadWriter ;; engine: github.com/v-byte-cpu/sx/pkg/scan.EngineResulter
 //@   props C03 C15 C01 C16 C07 C08 C13 C14 C09 C10 C12 C20 C11 C19
 //@   observe bpfFilter, ratelimit.Per, ratelimit.New
 //@   opaque afpacket.NewPacketSource, (*Source).Close, (*Source).SetBPFFilter, packet.NewRateLimitReadWriter, scan.SetupPacketEngine, startScanEngine
@@ -105,6 +108,7 @@ package command
 // error aborts with that error; the container returned is the one that received the inserts.
 //@ func parseExcludeFile
 //@   sig openFile
+//@   locals input: io.ReadCloser ;; ranger: github.com/yl2chen/cidranger.Ranger ;; scanner: *bufio.Scanner ;; line: string ;; comment: int ;; ipnet: *net.IPNet
 //@   props C02 C18 C01 C03 C13 C17 C08
 //@   observe openFile, (*bufio.Scanner).Scan, (*bufio.Scanner).Text, strings.Index, strings.Trim, ParseIPNet, cidranger.NewBasicRangerEntry, Insert, Close, cidranger.NewPCTrieRanger
 //@   entry row noopen: [call openFile() as (in, e)] when e != nil && ret1 == e -> exit
@@ -143,6 +147,7 @@ package command
 // comma separated list: one parsePortRange per part, results kept in order, first error aborts
 //@ func parsePortRanges
 //@   sig portsRanges
+//@   locals ports: *github.com/v-byte-cpu/sx/pkg/scan.PortRange ;; portsRange: string
 //@   props C18 C01 C02 C03 C13 C17 C08
 //@   observe strings.Split, parsePortRange
 //@   entry row split: [call strings.Split(portsRanges, ",") as (parts)] -> loop 0
@@ -181,6 +186,7 @@ package command
 // keeps every bit set before; an unknown name is an error; the empty text is 0
 //@ func parseIPFlags
 //@   sig inputFlags
+//@   locals flags: []string ;; flag: string
 //@   props C18 C05
 //@   observe strings.ToLower, strings.Split
 //@   entry row empty: [] when len(inputFlags) == 0 && ret0 == 0 && ret1 == nil -> exit
@@ -195,6 +201,7 @@ package command
 // accepted (lower-cased) names are returned in order
 //@ func parseTCPFlags
 //@   sig tcpFlags
+//@   locals flags: []string ;; result: []string ;; flag: string ;; ok: bool
 //@   props C18 C05
 //@   observe strings.Split, strings.ToLower
 //@   entry row empty: [] when len(tcpFlags) == 0 && len(ret0) == 0 && ret1 == nil -> exit
@@ -212,6 +219,7 @@ package command
 // if given, else exactly the interface's hardware address (nil stays nil: that is what selects VPN framing)
 //@ func (*packetScanCmdOpts).getScanRange
 //@   sig o, dstSubnet
+//@   locals iface: *net.Interface ;; srcIP: net.IP ;; err: error ;; srcMAC: net.HardwareAddr
 //@   props C17 C05 C02 C11
 //@   observe getInterface, To4
 //@   entry row ifaceerr: [call getInterface(o, dstSubnet) as (ifc, sip, e)] when e != nil && ret0 == nil && ret1 == e -> exit
@@ -256,6 +264,7 @@ package command
 // errSrcMAC, nothing is started; filter = arp.BPFFilter; rate and exit delay from the flags; logger and range as built
 //@ func newARPCmd$1
 //@   sig cmd, args
+//@   locals ctx: context.Context ;; cancel: context.CancelFunc ;; dstSubnet: *net.IPNet ;; r: *github.com/v-byte-cpu/sx/pkg/scan.Range ;; logger: github.com/v-byte-cpu/sx/command/log.Logger ;; m: *github.com/v-byte-cpu/sx/pkg/scan/arp.ScanMethod
 //@   props C03 C15 C16 C17 C02 C01 C19 C05 C11 C13 C14 C07 C12
 //@   observe ip.ParseIPNet, getScanRange, startPacketScanEngine
 //@   opaque (*packetScanCmdOpts).parseRawOptions, (*arpCmdOpts).getLogger, (*arpCmdOpts).newARPScanMethod
@@ -279,6 +288,7 @@ package command
 // rate, VPN mode, logger, range and exit delay exactly as parsed
 //@ func newICMPCmd$1
 //@   sig cmd, args
+//@   locals ctx: context.Context ;; cancel: context.CancelFunc ;; m: *github.com/v-byte-cpu/sx/pkg/scan/icmp.ScanMethod
 //@   props C03 C15 C16 C17 C01 C02 C05 C11 C13 C14 C07 C12
 //@   observe startPacketScanEngine
 //@   opaque (*icmpCmdOpts).parseRawOptions, (*ipScanCmdOpts).parseOptions, (*icmpCmdOpts).newICMPScanMethod
@@ -295,6 +305,7 @@ package command
 // rate, VPN mode, logger, range and exit delay exactly as parsed
 //@ func newUDPCmd$1
 //@   sig cmd, args
+//@   locals ctx: context.Context ;; cancel: context.CancelFunc ;; m: *github.com/v-byte-cpu/sx/pkg/scan/udp.ScanMethod
 //@   props C03 C15 C16 C17 C01 C02 C05 C11 C13 C14 C07 C12
 //@   observe startPortScanEngine
 //@   opaque (*udpCmdOpts).parseRawOptions, (*ipPortScanCmdOpts).parseOptions, (*udpCmdOpts).newUDPScanMethod
@@ -337,6 +348,7 @@ package command
 //@   ensures ret <==> (pkt.SYN && pkt.ACK)
 //@ func newTCPFINCmd$1
 //@   sig cmd, args
+//@   locals ctx: context.Context ;; cancel: context.CancelFunc ;; scanName: string ;; m: *github.com/v-byte-cpu/sx/pkg/scan/tcp.ScanMethod
 //@   props C03 C05 C15 C16 C17 C01 C02 C11 C13 C14 C07 C12
 //@   observe newTCPScanMethod, startPortScanEngine
 //@   opaque (*ipPortScanCmdOpts).parseRawOptions, (*ipPortScanCmdOpts).parseOptions
@@ -357,6 +369,7 @@ package command
 //@                           && cfg.scanRange.SrcMAC == c.opts.scanRange.SrcMAC && cfg.scanRange.Ports == c.opts.scanRange.Ports) -> exit
 //@ func newTCPNULLCmd$1
 //@   sig cmd, args
+//@   locals ctx: context.Context ;; cancel: context.CancelFunc ;; scanName: string ;; m: *github.com/v-byte-cpu/sx/pkg/scan/tcp.ScanMethod
 //@   props C03 C05 C15 C16 C17 C01 C02 C11 C13 C14 C07 C12
 //@   observe newTCPScanMethod, startPortScanEngine
 //@   opaque (*ipPortScanCmdOpts).parseRawOptions, (*ipPortScanCmdOpts).parseOptions
@@ -376,6 +389,7 @@ package command
 //@                           && cfg.scanRange.SrcMAC == c.opts.scanRange.SrcMAC && cfg.scanRange.Ports == c.opts.scanRange.Ports) -> exit
 //@ func newTCPXmasCmd$1
 //@   sig cmd, args
+//@   locals ctx: context.Context ;; cancel: context.CancelFunc ;; scanName: string ;; m: *github.com/v-byte-cpu/sx/pkg/scan/tcp.ScanMethod
 //@   props C03 C05 C15 C16 C17 C01 C02 C11 C13 C14 C07 C12
 //@   observe newTCPScanMethod, startPortScanEngine
 //@   opaque (*ipPortScanCmdOpts).parseRawOptions, (*ipPortScanCmdOpts).parseOptions
@@ -398,6 +412,7 @@ package command
 //@                           && cfg.scanRange.SrcMAC == c.opts.scanRange.SrcMAC && cfg.scanRange.Ports == c.opts.scanRange.Ports) -> exit
 //@ func (*tcpSYNCmdOpts).startScan
 //@   sig o, ctx, args
+//@   locals scanName: string ;; m: *github.com/v-byte-cpu/sx/pkg/scan/tcp.ScanMethod
 //@   props C03 C05 C15 C16 C17 C01 C02 C11 C13 C14 C07 C12
 //@   observe newTCPScanMethod, startPortScanEngine
 //@   opaque (*ipPortScanCmdOpts).parseOptions
@@ -429,6 +444,7 @@ package command
 // the VPN mode (C03 C05 C11 C17)
 //@ func (*tcpCmdOpts).newTCPScanMethod
 //@   sig o, ctx, opts
+//@   locals c: *tcpScanConfig ;; opt: tcpScanConfigOption ;; reqgen: github.com/v-byte-cpu/sx/pkg/scan.RequestGenerator ;; pktgen: github.com/v-byte-cpu/sx/pkg/scan.PacketGenerator ;; psrc: github.com/v-byte-cpu/sx/pkg/scan.PacketSource ;; results: github.com/v-byte-cpu/sx/pkg/scan.ResultChan
 //@   props C03 C05 C11 C17 C01 C02 C13 C14 C15 C16 C07 C12
 //@   observe tcpScanConfigOption
 //@   opaque (*ipPortScanCmdOpts).newIPPortGenerator, arp.NewCacheRequestGenerator, tcp.WithFillerVPNmode, tcp.NewPacketFiller, scan.NewPacketMultiGenerator, scan.NewPacketSource, scan.NewResultChan, tcp.WithPacketFilterFunc, tcp.WithPacketFlagsFunc, tcp.WithScanVPNmode, tcp.NewScanMethod
@@ -511,6 +527,7 @@ package command
 //@   ensures c.scanMethod == sm
 //@ func newEngineConfig
 //@   sig opts
+//@   locals c: *engineConfig ;; o: engineConfigOption
 //@   props C16 C01 C03 C07 C08 C13 C14 C15 C09 C10 C12 C20 C11 C19
 //@   inline
 //@   observe engineConfigOption
@@ -548,6 +565,7 @@ package command
 // ip/port pairs; otherwise file of addresses x ports; the exclusion filter is outermost iff exclusions were given
 //@ func (*ipPortScanCmdOpts).newIPPortGenerator
 //@   sig o
+//@   locals openStdin: openFileFunc ;; ipgen: github.com/v-byte-cpu/sx/pkg/scan.IPGenerator
 //@   props C01 C02 C13 C03 C18 C17 C08
 //@   opaque scan.NewIPGenerator, scan.NewPortGenerator, scan.NewIPPortGenerator, scan.NewFileIPPortGenerator, scan.NewFileIPGenerator, scan.NewFilterIPRequestGenerator
 //@   entry row subnet:  [call scan.NewIPGenerator() as (ig) ; call scan.NewPortGenerator() as (pg) ; call scan.NewIPPortGenerator(ig, pg) as (g)] when len(o.ipFile) == 0 && o.excludeIPs == nil && ret == g -> exit
@@ -561,6 +579,7 @@ package command
 // configuration carrying this logger, this range and the --exit-delay flag
 //@ func newSocksCmd$1
 //@   sig cmd, args
+//@   locals ctx: context.Context ;; cancel: context.CancelFunc ;; scanRange: *github.com/v-byte-cpu/sx/pkg/scan.Range ;; logger: github.com/v-byte-cpu/sx/command/log.Logger ;; engine: github.com/v-byte-cpu/sx/pkg/scan.EngineResulter
 //@   props C16 C08 C09 C01 C15 C02 C13 C14 C12
 //@   observe startScanEngine
 //@   opaque (*genericScanCmdOpts).parseRawOptions, (*genericScanCmdOpts).parseScanRange, (*genericScanCmdOpts).getLogger, (*socksCmdOpts).newSOCKSScanEngine
@@ -575,6 +594,7 @@ package command
 // configuration carrying this logger, this range and the --exit-delay flag
 //@ func newDockerCmd$1
 //@   sig cmd, args
+//@   locals ctx: context.Context ;; cancel: context.CancelFunc ;; scanRange: *github.com/v-byte-cpu/sx/pkg/scan.Range ;; logger: github.com/v-byte-cpu/sx/command/log.Logger ;; engine: github.com/v-byte-cpu/sx/pkg/scan.EngineResulter
 //@   props C16 C08 C10 C01 C15 C02 C13 C14 C12
 //@   observe startScanEngine
 //@   opaque (*dockerCmdOpts).parseRawOptions, (*genericScanCmdOpts).parseScanRange, (*genericScanCmdOpts).getLogger, (*dockerCmdOpts).newDockerScanEngine
@@ -589,6 +609,7 @@ package command
 // configuration carrying this logger, this range and the --exit-delay flag
 //@ func newElasticCmd$1
 //@   sig cmd, args
+//@   locals ctx: context.Context ;; cancel: context.CancelFunc ;; scanRange: *github.com/v-byte-cpu/sx/pkg/scan.Range ;; logger: github.com/v-byte-cpu/sx/command/log.Logger ;; engine: github.com/v-byte-cpu/sx/pkg/scan.EngineResulter
 //@   props C16 C08 C10 C01 C15 C02 C13 C14 C12
 //@   observe startScanEngine
 //@   opaque (*elasticCmdOpts).parseRawOptions, (*genericScanCmdOpts).parseScanRange, (*genericScanCmdOpts).getLogger, (*elasticCmdOpts).newElasticScanEngine
@@ -679,6 +700,7 @@ package command
 // exactly once, from THAT text - and the parsed values are the ones stored. (Loop-free functions: "exit require".)
 //@ func (*genericScanCmdOpts).parseRawOptions
 //@   sig o
+//@   locals portRanges: []*github.com/v-byte-cpu/sx/pkg/scan.PortRange ;; err: error
 //@   props C15 C18 C02 C08 C01 C03 C13 C17
 //@   opaque parsePortRanges, parsePortsFile, parseExcludeFile
 //@   exit require rate:    call parseRateLimit(bind_s) as (c, w, e) when len(pre(o.rawRateLimit)) > 0 && ret == nil then s == pre(o.rawRateLimit) && e == nil && o.rateCount == c && o.rateWindow == w
@@ -707,6 +729,7 @@ package command
 //@   ensures plain: (len(old(o.rawRateLimit)) == 0 && len(old(o.rawExcludeFile)) == 0 && len(old(o.rawInterface)) == 0 && len(old(o.rawSrcMAC)) == 0) ==> ret == nil
 //@ func (*ipPortScanCmdOpts).parseRawOptions
 //@   sig o
+//@   locals portRanges: []*github.com/v-byte-cpu/sx/pkg/scan.PortRange ;; err: error
 //@   props C18 C01 C02 C03 C13 C17 C08
 //@   opaque (*ipScanCmdOpts).parseRawOptions, parsePortRanges, parsePortsFile
 //@   exit require base:  call parseRawOptions(_) as (e) when ret == nil then e == nil
@@ -721,6 +744,7 @@ package command
 //@   exit forbid nofile:    call parsePortsFile(_) when len(pre(o.portFile)) == 0
 //@ func (*genericScanCmdOpts).newIPPortGenerator
 //@   sig o
+//@   locals openStdin: openFileFunc ;; ipgen: github.com/v-byte-cpu/sx/pkg/scan.IPGenerator
 //@   props C01 C02 C13 C08 C03 C18 C17
 //@   opaque scan.NewIPGenerator, scan.NewPortGenerator, scan.NewIPPortGenerator, scan.NewFileIPPortGenerator, scan.NewFileIPGenerator, scan.NewFilterIPRequestGenerator
 //@   entry row subnet:  [call scan.NewIPGenerator() as (ig) ; call scan.NewPortGenerator() as (pg) ; call scan.NewIPPortGenerator(ig, pg) as (g)] when len(o.ipFile) == 0 && o.excludeIPs == nil && ret == g -> exit
@@ -793,6 +817,7 @@ package command
 // line parsed by parsePortRange and appended in order; the first error aborts with nothing
 //@ func parsePortsFile
 //@   sig openFile
+//@   locals input: io.ReadCloser ;; scanner: *bufio.Scanner ;; line: string ;; comment: int ;; ports: *github.com/v-byte-cpu/sx/pkg/scan.PortRange ;; err: error
 //@   props C18 C01 C02 C03 C13 C17 C08
 //@   observe openFile, (*bufio.Scanner).Scan, (*bufio.Scanner).Text, strings.Index, strings.Trim, parsePortRange, Close
 //@   entry row noopen: [call openFile() as (in, e)] when e != nil && ret1 == e -> exit
@@ -873,6 +898,7 @@ package command
 //@   entry row lookup: [call ip.GetDefaultGatewayIP(iface) as (g, e) ; call To4(g) as (g4) ; call Get(cache, g4) as (m)] when o.gatewayMAC == nil && e == nil && ret0 == m && ret1 == nil -> exit
 //@ func (*ipScanCmdOpts).parseARPCache
 //@   sig o
+//@   locals r: io.ReadCloser
 //@   props C11 C01 C05 C07 C13 C12 C02 C17
 //@   observe arp.FillCache, Close
 //@   opaque (*ipScanCmdOpts).openARPCache, arp.NewCache
@@ -889,6 +915,7 @@ package command
 // order, each the table entry of that flag (absent -> nil); scan name "tcpflags"; all-pass reply predicate; all flags printed
 //@ func newTCPFlagsCmd$1
 //@   sig cmd, args
+//@   locals ctx: context.Context ;; cancel: context.CancelFunc ;; scanName: string ;; opts: []github.com/v-byte-cpu/sx/pkg/scan/tcp.PacketFillerOption ;; flag: string ;; m: *github.com/v-byte-cpu/sx/pkg/scan/tcp.ScanMethod
 //@   props C03 C05 C15 C16 C17 C01 C02 C11 C13 C14 C07 C12
 //@   observe newTCPScanMethod, startPortScanEngine, startScan
 //@   opaque (*tcpFlagsCmdOpts).parseRawOptions, (*ipPortScanCmdOpts).parseOptions, newTCPSYNCmdOpts
@@ -1050,46 +1077,57 @@ package command
 // command constructors: the command's action is this command's own RunE closure over this command object, the
 // flags are registered on the cobra command that is returned
 //@ func newARPCmd
+//@   locals c: *arpCmd ;; cmd: *github.com/spf13/cobra.Command
 //@   props C01 C02 C03 C05 C11 C13 C14 C15 C16 C17 C19
 //@   modifies nothing
 //@   entry row build: [call initCliFlags(_, bind_cmd)] when ret != nil && fresh(ret) && fresh(cmd) && ret.cmd == cmd && closureof(cmd.RunE, "newARPCmd$1") && capt(cmd.RunE, "c") == ret -> exit
 //@ func newICMPCmd
+//@   locals c: *icmpCmd ;; cmd: *github.com/spf13/cobra.Command
 //@   props C01 C02 C03 C05 C11 C13 C14 C15 C16 C17
 //@   modifies nothing
 //@   entry row build: [call initCliFlags(_, bind_cmd)] when ret != nil && fresh(ret) && fresh(cmd) && ret.cmd == cmd && closureof(cmd.RunE, "newICMPCmd$1") && capt(cmd.RunE, "c") == ret -> exit
 //@ func newUDPCmd
+//@   locals c: *udpCmd ;; cmd: *github.com/spf13/cobra.Command
 //@   props C01 C02 C03 C05 C11 C13 C14 C15 C16 C17
 //@   modifies nothing
 //@   entry row build: [call initCliFlags(_, bind_cmd)] when ret != nil && fresh(ret) && fresh(cmd) && ret.cmd == cmd && closureof(cmd.RunE, "newUDPCmd$1") && capt(cmd.RunE, "c") == ret -> exit
 //@ func newTCPFlagsCmd
+//@   locals c: *tcpFlagsCmd ;; cmd: *github.com/spf13/cobra.Command
 //@   props C01 C02 C03 C05 C11 C13 C14 C15 C16 C17
 //@   modifies nothing
 //@   entry row build: [call initCliFlags(_, bind_cmd)] when ret != nil && fresh(ret) && fresh(cmd) && ret.cmd == cmd && closureof(cmd.RunE, "newTCPFlagsCmd$1") && capt(cmd.RunE, "c") == ret -> exit
 //@ func newTCPSYNCmd
+//@   locals c: *tcpSYNCmd ;; cmd: *github.com/spf13/cobra.Command
 //@   props C01 C02 C03 C05 C11 C13 C14 C15 C16 C17
 //@   modifies nothing
 //@   entry row build: [call initCliFlags(_, bind_cmd)] when ret != nil && fresh(ret) && fresh(cmd) && ret.cmd == cmd && closureof(cmd.RunE, "newTCPSYNCmd$1") && capt(cmd.RunE, "c") == ret -> exit
 //@ func newTCPFINCmd
+//@   locals c: *tcpFINCmd ;; cmd: *github.com/spf13/cobra.Command
 //@   props C01 C02 C03 C05 C11 C13 C14 C15 C16 C17
 //@   modifies nothing
 //@   entry row build: [call initCliFlags(_, bind_cmd)] when ret != nil && fresh(ret) && fresh(cmd) && ret.cmd == cmd && closureof(cmd.RunE, "newTCPFINCmd$1") && capt(cmd.RunE, "c") == ret -> exit
 //@ func newTCPNULLCmd
+//@   locals c: *tcpNULLCmd ;; cmd: *github.com/spf13/cobra.Command
 //@   props C01 C02 C03 C05 C11 C13 C14 C15 C16 C17
 //@   modifies nothing
 //@   entry row build: [call initCliFlags(_, bind_cmd)] when ret != nil && fresh(ret) && fresh(cmd) && ret.cmd == cmd && closureof(cmd.RunE, "newTCPNULLCmd$1") && capt(cmd.RunE, "c") == ret -> exit
 //@ func newTCPXmasCmd
+//@   locals c: *tcpXmasCmd ;; cmd: *github.com/spf13/cobra.Command
 //@   props C01 C02 C03 C05 C11 C13 C14 C15 C16 C17
 //@   modifies nothing
 //@   entry row build: [call initCliFlags(_, bind_cmd)] when ret != nil && fresh(ret) && fresh(cmd) && ret.cmd == cmd && closureof(cmd.RunE, "newTCPXmasCmd$1") && capt(cmd.RunE, "c") == ret -> exit
 //@ func newSocksCmd
+//@   locals c: *socksCmd ;; cmd: *github.com/spf13/cobra.Command
 //@   props C01 C02 C08 C13 C14 C15 C16 C09
 //@   modifies nothing
 //@   entry row build: [call initCliFlags(_, bind_cmd)] when ret != nil && fresh(ret) && fresh(cmd) && ret.cmd == cmd && closureof(cmd.RunE, "newSocksCmd$1") && capt(cmd.RunE, "c") == ret -> exit
 //@ func newDockerCmd
+//@   locals c: *dockerCmd ;; cmd: *github.com/spf13/cobra.Command
 //@   props C01 C02 C08 C13 C14 C15 C16 C10
 //@   modifies nothing
 //@   entry row build: [call initCliFlags(_, bind_cmd)] when ret != nil && fresh(ret) && fresh(cmd) && ret.cmd == cmd && closureof(cmd.RunE, "newDockerCmd$1") && capt(cmd.RunE, "c") == ret -> exit
 //@ func newElasticCmd
+//@   locals c: *elasticCmd ;; cmd: *github.com/spf13/cobra.Command
 //@   props C01 C02 C08 C13 C14 C15 C16 C10
 //@   modifies nothing
 //@   entry row build: [call initCliFlags(_, bind_cmd)] when ret != nil && fresh(ret) && fresh(cmd) && ret.cmd == cmd && closureof(cmd.RunE, "newElasticCmd$1") && capt(cmd.RunE, "c") == ret -> exit
@@ -1097,6 +1135,7 @@ package command
 // the root command offers every scan: tcp (flags) with its four sub-scans, then arp, icmp, udp, tcp, socks, docker, elastic
 //@ func newRootCmd
 //@   sig version
+//@   locals cmd: *github.com/spf13/cobra.Command ;; tcpCmd: *github.com/spf13/cobra.Command
 //@   props C01 C03 C08
 //@   observe AddCommand
 //@   entry row tree: [call newTCPFlagsCmd() as (t) ; call newTCPSYNCmd() as (s1) ; call newTCPFINCmd() as (s2) ; call newTCPNULLCmd() as (s3) ; call newTCPXmasCmd() as (s4) ; call AddCommand(t.cmd, bind_sub) ;
@@ -1165,6 +1204,7 @@ package command
 // terminal, and is then read as it is
 //@ func (*ipScanCmdOpts).openARPCache
 //@   sig o
+//@   locals info: os.FileInfo
 //@   props C11
 //@   observe os.Open, Stat, Mode, io.NopCloser
 //@   entry row file:   [call os.Open(o.arpCacheFile) as (f, e)] when !(len(o.arpCacheFile) == 0 || o.arpCacheFile == "-") && ret1 == e && isptr(ret0, os.File) && asptr(ret0, os.File) == f -> exit
